@@ -110,9 +110,11 @@ TWINS = {"quick": 150, "thorough": 3000}
 
 SPECIFIC = {
     "C08": ["vectors", "readersim"],
+    "C09": ["shapes", "arenasim"],
+    "C19": ["legality"],
     "C11": ["vectors"],
     "C12": ["readersim"],
-    "C14": ["vectors", "readersim"],
+    "C14": ["vectors", "readersim", "maxima"],
     "C10": ["timesim"],
     "C13": ["twins-cancel"],
     "C15": ["twins-fragment", "twins-stall", "readersim"],
@@ -317,6 +319,23 @@ def gen_aged(tier, seed, outdir, mqv, root):
     json.dump({"tool_errors": [], "samples": samples}, open(os.path.join(outdir, "meta.json"), "w"))
 
 
+def gen_program(name):
+    def gen(tier, seed, outdir, mqv, root):
+        import gen_programs
+        progs = gen_programs.GROUPS[name]()
+        pf = os.path.join(outdir, name + ".ndjson")
+        with open(pf, "w") as f:
+            for p in progs:
+                f.write(json.dumps(p) + "\n")
+        msg = run([mqv, "program", pf, os.path.join(outdir, name + ".trace")])
+        os.remove(pf)
+        json.dump({"tool_errors": [], "samples": [{"group": name, "programs": len(progs),
+                                                    "requests": sum(len([s for s in p["steps"] if s["e"] not in ("poll", "b")]) for p in progs),
+                                                    "harness": msg}]},
+                  open(os.path.join(outdir, "meta.json"), "w"))
+    return gen
+
+
 def gen_twins(kind):
     def gen(tier, seed, outdir, mqv, root):
         n = TWINS[tier]
@@ -326,7 +345,8 @@ def gen_twins(kind):
     return gen
 
 
-GENERATORS = {"twins-aged": gen_aged, "arenasim": gen_arenasim, "readersim": gen_readersim, "timesim": gen_timesim, "vectors": gen_vectors, "twins-stall": gen_twins("stall"), "twins-cancel": gen_twins("cancel"), "twins-fragment": gen_twins("fragment"), "common": gen_common, "witness": gen_witness, "cover": gen_cover, "sim": gen_sim}
+GENERATORS = {"legality": gen_program("legality"), "shapes": gen_program("shapes"), "maxima": gen_program("maxima"),
+              "twins-aged": gen_aged, "arenasim": gen_arenasim, "readersim": gen_readersim, "timesim": gen_timesim, "vectors": gen_vectors, "twins-stall": gen_twins("stall"), "twins-cancel": gen_twins("cancel"), "twins-fragment": gen_twins("fragment"), "common": gen_common, "witness": gen_witness, "cover": gen_cover, "sim": gen_sim}
 
 
 def generate(group, tier, seed, outdir, mqv, root):
